@@ -84,13 +84,14 @@ fn main() {
     return;
   }
 
-  let mut res = ShardResult::new(&prop, "cache_seq", args.seed, args.shard);
+  let res_arc = std::sync::Arc::new(std::sync::Mutex::new(ShardResult::new(&prop, "cache_seq", args.seed, args.shard)));
+  vh_cache::seq::wd::spawn(res_arc.clone(), args.out.clone(), args.start, std::time::Duration::from_secs(args.get_u64("hang-s", 20)));
   let mut rng = Rng::new(args.shard_seed());
   let max_exec = args.get_u64("max-exec", u64::MAX);
   let mut n: u64 = 0;
 
   if prop == "C12" {
-    res.rule = "one evaluation = one generated program (8..max-len ops over 1..6 keys: insert, insert_with_ttl, overwrite, remove, \
+    res_arc.lock().unwrap().rule = "one evaluation = one generated program (8..max-len ops over 1..6 keys: insert, insert_with_ttl, overwrite, remove, \
       clock steps aimed at deadline-1ns / deadline / deadline+1ns of TTL, idle and grace deadlines, run_maintenance, audits and every \
       read API in sync and async flavour) on a fresh unbounded cache with a random TTL / TTI / stale-while-revalidate configuration, \
       frozen virtual clock, janitor parked; non-trivial = at least one read was judged against an entry whose expiry instant had \
@@ -102,7 +103,29 @@ fn main() {
       n += 1;
       let cfg = gen_cfg12(&mut rng, tick);
       let plan = gen_plan12(&mut rng, &cfg, max_len);
+      vh_cache::seq::wd::describe(format!("C12 case_index {} config {:?} (re-run with the same --seed/--shard/--shards and --max-exec {})", n - 1, cfg, n));
       let r = catch_unwind(AssertUnwindSafe(|| run12(&cfg, Source::Gen(&mut rng, plan))));
+      // shrinking calls into the library: do it before the result is locked
+      let mut shrunk: Vec<(String, Vec<Op>, Vec<String>)> = Vec::new();
+      if let Ok((o, ops)) = &r {
+        for f in &o.findings {
+          let sig = f.sig();
+          if shrunk.iter().any(|x| x.0 == sig) {
+            continue;
+          }
+          let already = res_arc.lock().unwrap().violations.iter().filter(|v| v.signature == sig).count();
+          let upto = &ops[..(f.at + 1).min(ops.len())];
+          if already == 0 && !no_shrink {
+            let m = catch_unwind(AssertUnwindSafe(|| shrink12(&cfg, upto, &sig))).unwrap_or_else(|_| upto.to_vec());
+            let t = catch_unwind(AssertUnwindSafe(|| run12(&cfg, Source::Fixed(&m)).0.trace)).unwrap_or_default();
+            shrunk.push((sig, m, t));
+          } else {
+            shrunk.push((sig, upto.to_vec(), Vec::new()));
+          }
+        }
+      }
+      let mut guard = res_arc.lock().unwrap();
+      let res = &mut *guard;
       res.executions += 1;
       let (o, ops) = match r {
         Ok(x) => x,
@@ -124,7 +147,7 @@ fn main() {
           continue;
         }
       };
-      merge(&mut res, &prop, &o);
+      merge(res, &prop, &o);
       res.count("ops_total", ops.len() as u64);
       res.count(&format!("configs/ttl_{}", cfg.ttl.is_some()), 1);
       res.count(&format!("configs/tti_{}", cfg.tti.is_some()), 1);
@@ -150,14 +173,7 @@ fn main() {
           res.count("violations_beyond_cap", 1);
           continue;
         }
-        let upto = &ops[..(f.at + 1).min(ops.len())];
-        let (min_ops, min_trace) = if already == 0 && !no_shrink {
-          let m = catch_unwind(AssertUnwindSafe(|| shrink12(&cfg, upto, &sig))).unwrap_or_else(|_| upto.to_vec());
-          let t = catch_unwind(AssertUnwindSafe(|| run12(&cfg, Source::Fixed(&m)).0.trace)).unwrap_or_default();
-          (m, t)
-        } else {
-          (upto.to_vec(), Vec::new())
-        };
+        let (_, min_ops, min_trace) = shrunk.iter().find(|x| x.0 == sig).cloned().unwrap();
         let witness = json!({
           "seed": args.seed, "shard": args.shard, "case_index": n - 1, "found_after_s": args.elapsed_s(),
           "minimal_program": program_json(&cfg, &min_ops),
@@ -170,7 +186,7 @@ fn main() {
       }
     }
   } else {
-    res.rule = "one evaluation = one generated scenario. iter: a fresh cache (1..16 shards, hash seed) filled with 0..1000 entries around the \
+    res_arc.lock().unwrap().rule = "one evaluation = one generated scenario. iter: a fresh cache (1..16 shards, hash seed) filled with 0..1000 entries around the \
       batch size (expired-before / expiring-during / live-throughout groups by per-item TTL, some overwritten), enumerated through one \
       of iter(batch) / iter_snapshot / async stream(batch) / async snapshot iter / to_snapshot with the clock stepped between next() calls. \
       restore: a bounded cache under one of the nine policy settings filled and maintained to a fixpoint, snapshot (optionally bincode \
@@ -182,7 +198,10 @@ fn main() {
     while args.time_left() && n < max_exec {
       n += 1;
       let case = gen_case17(&mut rng, tick, only.as_deref(), args.thorough);
+      vh_cache::seq::wd::describe(format!("C17 case_index {} {} (re-run with the same --seed/--shard/--shards and --max-exec {})", n - 1, case17_brief(&case), n));
       let r = catch_unwind(AssertUnwindSafe(|| run17(&case)));
+      let mut guard = res_arc.lock().unwrap();
+      let res = &mut *guard;
       res.executions += 1;
       let o = match r {
         Ok(x) => x,
@@ -203,7 +222,7 @@ fn main() {
           continue;
         }
       };
-      merge(&mut res, &prop, &o);
+      merge(res, &prop, &o);
       if o.nontrivial {
         res.add_nontrivial(o.shape);
       }
@@ -233,5 +252,6 @@ fn main() {
       }
     }
   }
+  let res = res_arc.lock().unwrap();
   res.write(&args.out, args.elapsed_s());
 }
